@@ -76,6 +76,11 @@ pub fn pick_sel_kind(r: &mut Rng) -> SelKind {
     }
 }
 
+pub fn random_selection(r: &mut Rng, u: &Value) -> Value {
+    let k = pick_sel_kind(r);
+    gen::gen_selection(r, u, k)
+}
+
 /// aud / nonce strings incl. empty, Unicode, '~', '.', and 1 KB values
 pub fn gen_aud_nonce(r: &mut Rng) -> (String, String) {
     fn one(r: &mut Rng) -> String {
